@@ -20,7 +20,7 @@ PROPS = ["C05", "C13", "C14", "C15", "C16", "C19", "C20"]
 REVERT_PROPS = {"84b9596": ["C05", "C19"], "64f96b1": ["C13"], "bea0f36": ["C15"], "3a70d12": ["C15"], "c3dc014": ["C05"],
                 "1b9a4f9": ["C05"], "435e2c8": ["C16"], "ccbf9bd": ["C13"], "5f9b297": ["C13"], "f0f9f96": ["C13"],
                 "9865bf0": ["C14", "C15"], "ed38495": ["C14"], "6d15e8a": ["C14"], "1a4f1bf": ["C14"], "b6a2c38": ["C20"],
-                "ba53086": ["C20"]}
+                "ba53086": ["C20"], "f310b76": ["C05"], "6c7e59e": ["C13"], "3cd3d06": ["C20"]}
 
 
 def patches():
@@ -33,7 +33,10 @@ def patches():
         meta = os.path.join(d, "meta.json")
         if os.path.exists(meta):
             m = json.load(open(meta))
-            out.append(("seeded/" + os.path.basename(d), os.path.join(d, "patch.diff"), m.get("properties", [m.get("property")]), m.get("needs", "")))
+            needs = m.get("needs", "")
+            if m.get("detected") is False:
+                needs = "BY-DESIGN " + needs
+            out.append(("seeded/" + os.path.basename(d), os.path.join(d, "patch.diff"), m.get("properties", [m.get("property")]), needs))
     return out
 
 
@@ -78,6 +81,8 @@ def main():
             continue
         for prop in (PROPS if allp else props):
             res, dt, first = run_one(patch, prop, runs)
+            if res == "missed" and needs.startswith("BY-DESIGN"):
+                res = "not detected (by design, see meta.json)"
             print("%-28s %-4s %-8s %5.1fs %s" % (name, prop, res, dt, first[:140]), flush=True)
             rows.append((name, prop, res, dt, first, needs))
     if not args:
